@@ -1,6 +1,10 @@
 //! Worker binary: `axv <check> --seed N --tier quick|thorough --shard i --out file [--atom a]`
 use axv::*;
 
+#[cfg(feature = "sysalloc")]
+#[global_allocator]
+static ALLOC: axv::allocprobe::Counting = axv::allocprobe::Counting;
+
 fn arg(args: &[String], name: &str) -> Option<String> {
     args.iter().position(|a| a == name).and_then(|i| args.get(i + 1).cloned())
 }
@@ -66,6 +70,7 @@ fn main() {
         "C16" => c16::run(seed, &tier, shard),
         "C16N" => c16::run_nesting(shard),
         "C19" => c19::run(seed, &tier, shard, nshards),
+        "C20" => c20::run(seed, &tier, shard),
         "C12" => {
             if shard == 0 {
                 witness::run_witnesses("C12");
